@@ -609,7 +609,7 @@ func rulesC10(p *Prog, r *Report) {
 		}
 		type pairT struct {
 			start, restart string
-			typ           string
+			typ            string
 		}
 		for _, pr := range []pairT{
 			{"x/auction/keeper.Keeper.StartDutchAuction", "x/auction/keeper.Keeper.RestartDutchAuctions$1", "DutchAuction"},
